@@ -258,8 +258,42 @@ func c14Gen(g *hx.Gen) {
 				}
 			}
 			c14Case(g, p, true, false, t, nil)
-		case mode == 1 && g.Chance(0.5): // complemented self comparison (outside the stated property: model only)
-			c14Case(g, p, true, true, t, c14RevComp(t))
+		case mode == 1: // complemented self comparison, as PALS.Align(true) drives it
+			// Inverted repeats: t[y:y+L] = revcomp(t[x:x+L]). Against revcomp(t) this is the match
+			// (a,b) = (y, tl-x-L) and its mirror image (x, tl-y-L), one on each side of the
+			// anti-diagonal a+b = tl on which the self-comparison cut of this strand acts.
+			for j := g.Pick(1, 2, 4); j > 0; j-- {
+				L := p.n + g.Pick(0, 0, 1, 3, 10, 40)
+				x, y := g.Intn(tl), g.Intn(tl)
+				if g.Chance(0.5) { // arms adjacent or overlapping (hairpin without loop): on and next to the anti-diagonal
+					y = x + L + g.Pick(-p.n, -p.k, -3, -2, -1, 0, 0, 0, 1, 2, 3, p.k)
+				}
+				if x >= 0 && y >= 0 && x+L <= tl && y+L <= tl {
+					rc := c14RevComp(t[x : x+L])
+					c14Plant(g, rc, t, 0, y, L, g.Range(0, p.e+1))
+				}
+			}
+			if g.Chance(0.25) { // a stretch that is its own reverse complement: (at)* or (acgt)*
+				u := []string{"at", "acgt", "ta", "gc"}[g.Intn(4)]
+				from := g.Intn(tl)
+				for i := from; i < tl && i < from+4*p.n; i++ {
+					t[i] = u[(i-from)%len(u)]
+				}
+			}
+			if g.Chance(0.8) {
+				c14Case(g, p, true, true, t, c14RevComp(t))
+			} else {
+				// the flags alone (the query is not the reverse complement): segments planted on, just
+				// above and just below the anti-diagonal
+				q := c14Rand(g, ql, nsym)
+				for j := g.Pick(1, 2, 3); j > 0 && ql > 0; j-- {
+					L := p.n + g.Pick(0, 0, 1, 5)
+					a := g.Intn(tl)
+					b := tl - a + g.Pick(-p.n, -p.k, -2, -1, 0, 0, 0, 1, 2, p.k)
+					c14Plant(g, t, q, a, b, L, g.Range(0, p.e))
+				}
+				c14Case(g, p, true, true, t, q)
+			}
 		default:
 			q := c14Rand(g, ql, nsym)
 			for j := g.Pick(0, 1, 1, 2, 3, 6); j > 0 && tl > 0 && ql > 0; j-- {
